@@ -30,7 +30,7 @@ LEVEL_NOTE = 'The rate matrix used in the residual is assembled from the jump li
 
 QUICK = [('SC', 0), ('FCC', 0), ('BCC', 0), ('HCP', 0), ('OMEGA', 0), ('ROMEGA', 0), ('SQUARE', 0), ('HONEY', 0), ('KAGOME', 0), ('RECTM', 0), ('B2', 0),
          ('OBLIQUE', 1), ('RHOM', 1), ('MONO', 2)]     # the last three: principal axes of D not along the Cartesian axes
-THOROUGH = QUICK + [('PYROPE', 0), ('TET', 1), ('ORTH', 2), ('DIAMOND', 0), ('L12', 0), ('NBO', 0), ('TRIA', 0), ('CRECT', 1), ('HEXP', 1), ('TRIC', 1),
+THOROUGH = QUICK + [('PYROPE', 0), ('TET', 1), ('ORTH', 2), ('DIAMOND', 0), ('L12', 0), ('NBO', 0), ('TRIA', 0), ('CRECT', 1), ('HEXP', 1), ('TRIC', 2),
                     ('FCC', 1), ('HONEY', 1), ('WURTZ2', 0), ('RUMPLED2', 0)]
 RBOUND = {'T': 1e-5, 'G1': 1e-5, 'G2': 1e-2}     # observed <= 4e-6 (T, G1) and <= 4e-3 (G2, oblique 2D) with Nmax = 4
 
